@@ -124,10 +124,10 @@ def run(ck):
                 await cmd(f"Light.set_hs_color hue({h})", lambda h=h: li.set_hs_color((h, 50)), lambda: (li.current_hs_color or (None, None))[0], {"pipe": "scale", "v": h * 10, "U": 10, "from": 0, "to": 360})
                 s_ = rnd.choice((0, 1, 50, 99, 100, rnd.randrange(101)))
                 await cmd(f"Light.set_hs_color saturation({s_})", lambda s_=s_: li.set_hs_color((10, s_)), lambda: (li.current_hs_color or (None, None))[1], {"pipe": "scale", "v": s_ * 10, "U": 10, "from": 0, "to": 100})
-            # ---- xyY: sequences of commands (the light merges every value into the last valid one), zero and extreme components included
+            # ---- xyY (coordinates on a grid of 0.02, compared to three decimals: the wire resolution is 1 / 65535): sequences of commands (the light merges every value into the last valid one), zero and extreme components included
             prev = None
             for _ in range(40 if quick else 600):
-                col = rnd.choice([(0.0, 0.0), (1.0, 1.0), (0.0, 1.0), (round(rnd.random(), 4), round(rnd.random(), 4)), None if prev is not None else (0.5, 0.5)])
+                col = rnd.choice([(0.0, 0.0), (1.0, 1.0), (0.0, 1.0), (rnd.randrange(0, 51) / 50, rnd.randrange(0, 51) / 50), None if prev is not None else (0.5, 0.5)])
                 br = rnd.choice([0, 0, 1, 120, 255, rnd.randrange(256), None if prev is not None and col is not None else 7])
                 if col is None and br is None:
                     continue
